@@ -265,6 +265,89 @@ def _minttl_domain(prog, r, g, lows):
         r.broke("calc_minttl: not interpretable: %s" % ex)
 
 
+def r_lifetime(prog, R):
+    r = R.rule("R-C08-LIFETIME", "the lifetime a response is stored with is never longer than its own TTLs allow: decision table of ares_qcache_insert_int over rcode, the smallest "
+               "record TTL (or none), the negative lifetime of an authority SOA (or none), and max_ttl", floor=5,
+               analysis="exact evaluation (evalx.run_cfg) of the function's own statements from entry to the allocation of the cache entry, with the results of "
+                        "ares_qcache_calc_minttl / ares_qcache_soa_minimum / the rcode and flag getters supplied as inputs of a finite domain; nothing is executed")
+    import evalx
+    f = prog.func("ares_qcache_insert_int")
+    g = prog.func("ares_qcache_calc_minttl")
+    sent = None
+    for b, i, el in g.elements():
+        if el["k"] == "decl":
+            for v in el["vars"]:
+                if v["n"] == "minttl" and v.get("init") is not None:
+                    sent = const_val(v["init"])
+    stops = {(b.id, i) for b, i, c in f.calls() if c.get("callee") in ("ares_malloc_zero", "ares_malloc")}
+    stops |= {(b.id, i) for b, i, el in f.elements() if el["k"] == "asg" and "expire_ts" in render(el["e"]["l"])}
+    rc = {it["n"]: it["v"] for it in prog.enum("ares_dns_rcode_t")["items"]}
+    tc = None
+    for it in prog.enum("ares_dns_flags_t")["items"]:
+        if it["n"] == "ARES_FLAG_TC":
+            tc = it["v"]
+    if not r.require(sent is not None and stops and tc is not None and "ARES_RCODE_NOERROR" in rc and "ARES_RCODE_NXDOMAIN" in rc,
+                     "insert_int: sentinel of calc_minttl, the entry allocation, ARES_FLAG_TC or the rcode enum not found"):
+        return
+    locs = {v["n"] for _, _, el in f.elements() if el["k"] == "decl" for v in el["vars"]}
+
+    def stored(rcode, flags, mt, soa, mx):
+        env = {n: 0 for n in locs if n not in ("entry",)}
+        env.update({"qcache": 1, "qresp": 1, "qcache->max_ttl": mx, "ares_dns_record_get_rcode()": rcode, "ares_dns_record_get_flags()": flags,
+                    "ares_qcache_calc_minttl()": mt, "ares_qcache_soa_minimum()": soa})
+        env.pop("entry", None)
+        out = {}
+        res = evalx.run_cfg(f, env, stop_at=stops, out=out, max_steps=48)
+        if res[0] == "stop":
+            return out.get("ttl")
+        if res[0] == "ret":
+            return None
+        raise evalx.Unknown("walk ended at an undecidable condition in block %s" % (res[1],))
+
+    K = {"nx": "NXDOMAIN: stored for at most min(SOA negative lifetime, smallest record TTL); not stored without an SOA",
+         "plain": "NOERROR without an authority SOA: stored for at most the smallest record TTL; not stored when no record carries one",
+         "soa": "NOERROR with an authority SOA: stored for at most the SOA's negative lifetime (and the smallest record TTL)",
+         "max": "stored lifetime never exceeds max_ttl; max_ttl 0 stores nothing",
+         "other": "truncated responses and rcodes other than NOERROR/NXDOMAIN are not stored"}
+    bad = {}
+    n = 0
+    try:
+        for rn, rv in sorted(rc.items()):
+            for flags in (0, tc):
+                if rn in ("ARES_RCODE_NOERROR", "ARES_RCODE_NXDOMAIN") and flags == 0:
+                    continue
+                n += 1
+                t = stored(rv, flags, 600, 600, 3600)
+                if t is not None:
+                    bad.setdefault("other", "%s%s is stored (lifetime %s)" % (rn, " with TC" if flags else "", t))
+        for rn in ("ARES_RCODE_NOERROR", "ARES_RCODE_NXDOMAIN"):
+            for mt in (1, 5, 600, sent):
+                for soa in (0, 1, 5, 600):
+                    for mx in (0, 3, 3600):
+                        n += 1
+                        t = stored(rc[rn], 0, mt, soa, mx)
+                        if rn == "ARES_RCODE_NXDOMAIN":
+                            base, key = (0 if soa == 0 else min(soa, mt)), "nx"
+                        elif soa == 0:
+                            base, key = (0 if mt == sent else mt), "plain"
+                        else:
+                            base, key = (soa if mt == sent else min(mt, soa)), "soa"
+                        what = "%s, smallest record TTL %s, SOA negative lifetime %s, max_ttl %d: stored for %s s" % (
+                            rn, "none" if mt == sent else mt, "none" if soa == 0 else soa, mx, t)
+                        if t is not None and t > mx or (mx == 0 and t is not None):
+                            bad.setdefault("max", what)
+                        elif t is not None and (base == 0 or t > base):
+                            bad.setdefault(key, what + (" instead of at most %d" % base if base else " instead of not at all"))
+    except evalx.Unknown as ex:
+        r.broke("insert_int: lifetime decision not interpretable: %s" % ex)
+        return
+    for k in ("nx", "plain", "soa", "max", "other"):
+        if k in bad:
+            r.viol(K[k], f.name, f.loc(f.ln), bad[k] + ": the response is replayed after one of its own lifetimes has run out")
+        else:
+            r.ok(K[k], f.loc(f.ln), note="%d input combinations evaluated" % n)
+
+
 def r_nottl(prog, R):
     r = R.rule("R-C08-NOTTL", "a response without any TTL-bearing record never gets the 'no TTL found' sentinel as its lifetime", floor=2, analysis="A-VS typestate from the sentinel to the expiry store")
     g = prog.func("ares_qcache_calc_minttl")
@@ -759,6 +842,7 @@ def run(prog, R, tier):
     R.assume("container primitives behave as their ADTs (C19)")
     r_filter(prog, R)
     r_nottl(prog, R)
+    r_lifetime(prog, R)
     r_key(prog, R)
     r_order(prog, R)
     r_ttl(prog, R)
